@@ -147,8 +147,27 @@ def main(tier):
     for a in sorted(glob.glob(os.path.join(work, "art*_*"))):
         kind = os.path.basename(a).split("_", 1)[1].split("-")[0]
         ev.cls("artifact_" + kind)
+        if kind == "timeout":
+            # one input runs under an instruction budget of 10^5: milliseconds. Not finishing within 100 s, twice, alone,
+            # is not load noise - some single step does not terminate in any useful sense
+            hung = 0
+            for _ in range(2):
+                try:
+                    subprocess.run([probe, a], capture_output=True, timeout=100,
+                                   env=dict(os.environ, ASAN_OPTIONS="detect_leaks=0:allocator_may_return_null=1"))
+                except subprocess.TimeoutExpired:
+                    hung += 1
+            if hung == 2 and "hang" not in seen:
+                seen.add("hang")
+                dst = common.save_replay(PROP, "hang_" + os.path.basename(a).split("-", 1)[1][:40], open(a, "rb").read(), binary=True)
+                print("C13: an accepted module does not finish within 100 s under the instruction budget (two runs, alone)")
+                common.report_violation(PROP, dst)
+                nviol += 1
+            else:
+                ev.cls("artifact_timeout_not_reproduced")
+            continue
         if kind != "crash":
-            continue       # oom / slow-unit / timeout / leak: load noise, not violations
+            continue       # oom / slow-unit / leak: load noise, not violations
         ok, why = confirm(probe, a)
         if not ok:
             ev.cls("artifact_crash_not_reproduced")
